@@ -24,8 +24,9 @@ def noGl (c : Ctx) : Option ErrClass := if c.glob.isNone then some .noGlobal els
   which no MOV can be deduced;
 * a datum overlapping an existing one; an invalid build constraint. -/
 def fault (c : Ctx) : Op → Option ErrClass
-  | .function _ | .staticGlobal _ | .pressure _ _ _ | .nav _ _ => none
-  | .attributes _ | .doc | .pragma | .label _ | .comment | .rawInstr _ | .allocLocal _
+  | .function _ | .staticGlobal _ | .pressure _ _ _ | .nav _ _ | .nilArg _ => none
+  | .implement _ => some .noPackage
+  | .attributes _ | .doc _ | .pragma _ | .label _ | .comment | .rawInstr _ | .allocLocal _
   | .param _ | .paramIndex _ | .ret _ | .retIndex _ | .signature (some _) | .instr true _ => noFn c
   | .signature none => some .sigExpr
   | .instr false _ => some .badOperands
@@ -108,8 +109,10 @@ theorem errs_monotone (c : Ctx) (op : Op) :
   cases op with
   | function n => simp [step, fault]
   | attributes a => simp [step, fault, withFn_errs]
-  | doc => simp [step, fault, withFn_errs]
-  | pragma => simp [step, fault, withFn_errs]
+  | doc nl => simp [step, fault, withFn_errs]
+  | pragma nl => simp [step, fault, withFn_errs]
+  | implement n => simp [step, fault]
+  | nilArg k => simp [step, fault]
   | signature s => cases s <;> simp [step, fault, withFn_errs]
   | instr v i => cases v <;> simp [step, fault, addNode_errs]
   | rawInstr i => simp [step, fault, addNode_errs]
@@ -334,35 +337,82 @@ structure Observed where
   passErr : Option PassErr
   deriving Repr, DecidableEq
 
-/-- **The property.** `nf` = number of builder-time faults of the history, `pf` =
-the compile-time faults present in the built file.  Nothing panics; any
-builder-time fault ⇒ non-zero status, nothing written to either output, exactly
-one message per fault; only compile-time faults ⇒ non-zero status, nothing
-written, and the reported error — when its message is recognised — is one of
-them; no fault ⇒ status 0, no error, both outputs written. -/
-def Spec (nf : Nat) (pf : List PassErr) (o : Observed) : Prop :=
-  o.panics = 0 ∧
-  (nf > 0 → o.status ≠ 0 ∧ o.asm = 0 ∧ o.stubs = 0 ∧ o.errs = nf ∧ o.diag = nf) ∧
-  (nf = 0 → pf ≠ [] → o.status ≠ 0 ∧ o.asm = 0 ∧ o.stubs = 0 ∧ o.errs = 0 ∧
-      ∀ e, o.passErr = some e → e ∈ pf) ∧
-  (nf = 0 → pf = [] → o.status = 0 ∧ o.errs = 0 ∧ o.diag = 0 ∧ o.asm > 0 ∧ o.stubs > 0)
+/-- The reported compile error, when its message is a recognised one, is among the faults present. -/
+def passErrAmong (pf : List PassErr) (o : Observed) : Prop := ∀ e, o.passErr = some e → e ∈ pf
 
-instance (nf pf o) : Decidable (Spec nf pf o) := by
+instance (pf o) : Decidable (passErrAmong pf o) :=
+  match h : o.passErr with
+  | none => isTrue (by simp [passErrAmong, h])
+  | some e => if hm : e ∈ pf then isTrue (by simpa [passErrAmong, h] using hm)
+              else isFalse (by simpa [passErrAmong, h] using hm)
+
+/-- **The property.**  Parameters (facts about the history): `nf` = number of
+builder-time faults, `na` = number of builder calls that were handed a nil
+argument, `sb` = the stub text of some function is not Go syntax, `pf` = the
+compile-time faults present in the built file.
+
+1. nothing panics;
+2. a failing generation (non-zero status) has written nothing to either output;
+3. any builder-time fault ⇒ non-zero status and one message per fault (a call
+   with a nil argument may, but need not, be reported as well), every message logged;
+4. without a builder-time fault the only messages there may be are those for
+   nil arguments, and any message means failure;
+5. only compile-time faults ⇒ non-zero status and the reported error — when its
+   message is recognised — is one of them;
+6. no fault at all (and printable stubs) ⇒ status 0, no diagnostics, both outputs written;
+7. all or nothing: without a fault, status 0 means both outputs were written (also
+   when a stub is unprintable: then either is acceptable, success with both outputs
+   or failure with none — but not a status 0 with an output missing). -/
+def Spec (nf na : Nat) (sb : Bool) (pf : List PassErr) (o : Observed) : Prop :=
+  o.panics = 0 ∧
+  (o.status ≠ 0 → o.asm = 0 ∧ o.stubs = 0) ∧
+  (nf > 0 → o.status ≠ 0 ∧ nf ≤ o.errs ∧ o.errs ≤ nf + na ∧ o.diag = o.errs) ∧
+  (nf = 0 → o.errs ≤ na ∧ (o.errs > 0 → o.status ≠ 0 ∧ o.diag = o.errs)) ∧
+  (nf = 0 → na = 0 → pf ≠ [] → o.status ≠ 0 ∧ passErrAmong pf o) ∧
+  (nf = 0 → na = 0 → pf = [] → sb = false → o.status = 0 ∧ o.diag = 0 ∧ o.asm > 0 ∧ o.stubs > 0) ∧
+  (nf = 0 → na = 0 → pf = [] → o.status = 0 → o.asm > 0 ∧ o.stubs > 0)
+
+instance (nf na sb pf o) : Decidable (Spec nf na sb pf o) := by
   unfold Spec
-  have : Decidable (∀ e, o.passErr = some e → e ∈ pf) :=
-    match h : o.passErr with
-    | none => isTrue (by simp)
-    | some e => if hm : e ∈ pf then isTrue (by simpa using hm) else isFalse (by simpa using hm)
-  exact inferInstance
+  refine @instDecidableAnd _ _ inferInstance (@instDecidableAnd _ _ inferInstance
+    (@instDecidableAnd _ _ inferInstance (@instDecidableAnd _ _ inferInstance
+      (@instDecidableAnd _ _ inferInstance (@instDecidableAnd _ _ inferInstance inferInstance)))))
 
 /-- Executable acceptor used on the implementation's outcome. -/
-def c18Accept (nf : Nat) (pf : List PassErr) (o : Observed) : Bool := decide (Spec nf pf o)
+def c18Accept (nf na : Nat) (sb : Bool) (pf : List PassErr) (o : Observed) : Bool :=
+  decide (Spec nf na sb pf o)
 
-theorem c18Accept_sound (nf pf o) : c18Accept nf pf o = true → Spec nf pf o := by
+theorem c18Accept_sound (nf na sb pf o) : c18Accept nf na sb pf o = true → Spec nf na sb pf o := by
   simp [c18Accept]
 
-theorem c18Accept_complete (nf pf o) : Spec nf pf o → c18Accept nf pf o = true := by
+theorem c18Accept_complete (nf na sb pf o) : Spec nf na sb pf o → c18Accept nf na sb pf o = true := by
   simp [c18Accept]
+
+/-- With no nil arguments the message count is pinned down: exactly one per fault. -/
+theorem Spec_exact_count (nf sb pf o) (h : Spec nf 0 sb pf o) : o.errs = nf := by
+  obtain ⟨_, _, h3, h4, _⟩ := h
+  by_cases hz : nf = 0
+  · have := (h4 hz).1; omega
+  · have := h3 (by omega); omega
+
+/-- Any fault (builder-time, or compile-time on a history without nil arguments) ⇒ nothing is written. -/
+theorem Spec_nothing_emitted (nf na sb pf o) (h : Spec nf na sb pf o)
+    (hf : nf > 0 ∨ (na = 0 ∧ pf ≠ [])) : o.status ≠ 0 ∧ o.asm = 0 ∧ o.stubs = 0 := by
+  obtain ⟨_, h2, h3, _, h5, _⟩ := h
+  have hs : o.status ≠ 0 := by
+    rcases hf with hf | ⟨hna, hpf⟩
+    · exact (h3 hf).1
+    · by_cases hz : nf = 0
+      · exact (h5 hz hna hpf).1
+      · exact (h3 (by omega)).1
+  exact ⟨hs, h2 hs⟩
+
+def Op.isNil : Op → Bool
+  | .nilArg _ => true
+  | _ => false
+
+/-- Number of calls with a nil argument in a history. -/
+def numNil (ops : List Op) : Nat := (ops.filter Op.isNil).length
 
 /-- What the model observes for a history under the standard configuration
 (`Compile`, assembly printer, stub printer; unlimited errors). -/
@@ -375,43 +425,84 @@ def observe (lim : Nat → Nat) (ops : List Op) : Observed :=
     diag := o.diag, panics := 0,
     passErr := if c.errs.isEmpty then (passFaults lim c.fns).head? else none }
 
+/-- The stub printer is reached (no builder-time fault, no compile-time fault) and fails. -/
+def stubFailureReached (lim : Nat → Nat) (ops : List Op) : Prop :=
+  numFaults Ctx.init ops = 0 ∧ passFaults lim (run Ctx.init ops).fns = [] ∧ stubFails (run Ctx.init ops) = true
+
+instance (lim ops) : Decidable (stubFailureReached lim ops) := by
+  unfold stubFailureReached; exact inferInstance
+
 def C18_statement : Prop :=
-  ∀ (lim : Nat → Nat) (ops : List Op),
-    Spec (numFaults Ctx.init ops) (passFaults lim (run Ctx.init ops).fns) (observe lim ops)
+  ∀ (lim : Nat → Nat) (ops : List Op), ¬ stubFailureReached lim ops →
+    Spec (numFaults Ctx.init ops) (numNil ops) (stubFails (run Ctx.init ops))
+      (passFaults lim (run Ctx.init ops).fns) (observe lim ops)
 
 /-- **C18.** The model of the builder and of `Main` meets the property for all
-histories (and all register-file sizes). -/
+histories (and all register-file sizes) on which the stub printer is not reached
+or does not fail. -/
 theorem C18 : C18_statement := by
-  intro lim ops
+  intro lim ops hstub
   have hcount := errs_count ops
-  generalize hc : run Ctx.init ops = c at hcount
-  generalize numFaults Ctx.init ops = nf at hcount
+  unfold stubFailureReached at hstub
+  generalize hc : run Ctx.init ops = c at hcount hstub
+  generalize numFaults Ctx.init ops = nf at hcount hstub
   unfold Spec observe
   simp only [hc]
-  refine ⟨trivial, ?_, ?_, ?_⟩
-  · intro hpos
-    have hne : c.errs ≠ [] := by intro h; rw [h] at hcount; simp at hcount; omega
-    have hres : result c = .error c.errs := by
-      unfold result; cases h : c.errs <;> simp_all
-    simp [main, hres, logLines, hcount]
-  · intro hz hpf
+  have herr : nf > 0 → result c = .error c.errs := by
+    intro hpos
+    unfold result; cases h : c.errs <;> simp_all
+  have hok : nf = 0 → c.errs = [] ∧ result c = .ok := by
+    intro hz
     have he : c.errs = [] := by
       cases h : c.errs with
       | nil => rfl
       | cons a as => rw [h] at hcount; simp at hcount; omega
-    have hres : result c = .ok := by simp [result, he]
-    have hfail : (passFaults lim c.fns).isEmpty = false := by
-      cases h : passFaults lim c.fns <;> simp_all
+    exact ⟨he, by simp [result, he]⟩
+  by_cases hz : nf = 0
+  · obtain ⟨he, hres⟩ := hok hz
     cases hh : passFaults lim c.fns with
-    | nil => exact absurd hh hpf
-    | cons a as => simp [main, hres, stdPasses, concat, concatFrom, hh, he]
-  · intro hz hpf
-    have he : c.errs = [] := by
-      cases h : c.errs with
-      | nil => rfl
-      | cons a as => rw [h] at hcount; simp at hcount; omega
-    have hres : result c = .ok := by simp [result, he]
-    simp [main, hres, stdPasses, concat, concatFrom, hpf, he]
+    | nil =>
+      have hsf : stubFails c = false := by
+        cases hs : stubFails c with
+        | false => rfl
+        | true => exact absurd ⟨hz, hh, hs⟩ hstub
+      simp [main, hres, stdPasses, concat, concatFrom, hh, he, hsf, hz]
+    | cons a as =>
+      simp [main, hres, stdPasses, concat, concatFrom, hh, he, hz, passErrAmong]
+  · have hpos : nf > 0 := by omega
+    have hres := herr hpos
+    simp [main, hres, logLines, hcount, hz]
+
+/-- **stub_failure_violates.** Whenever the stub printer is reached and fails,
+the model — which here does what the implementation does: `pass.Output` of the
+assembly printer has already written — violates the property: non-zero status
+with the assembly output written. -/
+theorem stub_failure_violates (lim : Nat → Nat) (ops : List Op) (h : stubFailureReached lim ops) :
+    (observe lim ops).status = 1 ∧ (observe lim ops).asm = 1 ∧
+    ¬ Spec (numFaults Ctx.init ops) (numNil ops) (stubFails (run Ctx.init ops))
+      (passFaults lim (run Ctx.init ops).fns) (observe lim ops) := by
+  obtain ⟨hz, hpf, hsf⟩ := h
+  have hcount := errs_count ops
+  rw [hz] at hcount
+  have he : (run Ctx.init ops).errs = [] := by
+    cases h : (run Ctx.init ops).errs with
+    | nil => rfl
+    | cons a as => rw [h] at hcount; simp at hcount
+  have hres : result (run Ctx.init ops) = .ok := by simp [result, he]
+  have hst : (observe lim ops).status = 1 ∧ (observe lim ops).asm = 1 := by
+    simp [observe, main, hres, stdPasses, concat, concatFrom, hpf, hsf]
+  refine ⟨hst.1, hst.2, ?_⟩
+  intro hspec
+  have := hspec.2.1 (by rw [hst.1]; decide)
+  rw [hst.2] at this
+  exact absurd this.1 (by decide)
+
+/-- The two together: the model meets the property exactly on the histories
+where a failing stub printer is not reached. -/
+theorem C18_iff (lim : Nat → Nat) (ops : List Op) :
+    Spec (numFaults Ctx.init ops) (numNil ops) (stubFails (run Ctx.init ops))
+      (passFaults lim (run Ctx.init ops).fns) (observe lim ops) ↔ ¬ stubFailureReached lim ops :=
+  ⟨fun hs hr => (stub_failure_violates lim ops hr).2.2 hs, C18 lim ops⟩
 
 /-! ## Non-vacuity: concrete histories meeting the hypotheses -/
 
@@ -450,12 +541,33 @@ example : logLines 2 5 = 3 := by decide
 /-- Main on the valid history: status 0, all three passes, both printers -/
 example : main 0 (stdPasses (fun _ => 15) (run Ctx.init exGood)) (run Ctx.init exGood) = ⟨0, 3, [1, 2], 0⟩ := by decide
 /-- the acceptor rejects a panic, a written output next to a fault, and a dropped message -/
-example : c18Accept 0 [] ⟨0, 0, 10, 10, 0, 1, none⟩ = false := by decide
-example : c18Accept 1 [] ⟨1, 1, 10, 0, 1, 0, none⟩ = false := by decide
-example : c18Accept 2 [] ⟨1, 1, 0, 0, 1, 0, none⟩ = false := by decide
-example : c18Accept 2 [] ⟨2, 1, 0, 0, 2, 0, none⟩ = true := by decide
-example : c18Accept 0 [.dupLabel] ⟨0, 1, 0, 0, 1, 0, some .dupLabel⟩ = true := by decide
-example : c18Accept 0 [.dupLabel] ⟨0, 0, 9, 9, 0, 0, none⟩ = false := by decide
+example : c18Accept 0 0 false [] ⟨0, 0, 10, 10, 0, 1, none⟩ = false := by decide
+example : c18Accept 1 0 false [] ⟨1, 1, 10, 0, 1, 0, none⟩ = false := by decide
+example : c18Accept 2 0 false [] ⟨1, 1, 0, 0, 1, 0, none⟩ = false := by decide
+example : c18Accept 2 0 false [] ⟨2, 1, 0, 0, 2, 0, none⟩ = true := by decide
+example : c18Accept 0 0 false [.dupLabel] ⟨0, 1, 0, 0, 1, 0, some .dupLabel⟩ = true := by decide
+example : c18Accept 0 0 false [.dupLabel] ⟨0, 0, 9, 9, 0, 0, none⟩ = false := by decide
+/-- … a failure after one printer has written (whatever the stubs look like) -/
+example : c18Accept 0 0 true [] ⟨0, 1, 74, 0, 1, 0, none⟩ = false := by decide
+example : c18Accept 0 0 true [] ⟨0, 1, 0, 0, 1, 0, none⟩ = true := by decide
+example : c18Accept 0 0 true [] ⟨0, 0, 74, 60, 0, 0, none⟩ = true := by decide
+example : c18Accept 0 0 true [] ⟨0, 0, 74, 0, 0, 0, none⟩ = false := by decide
+/-- … a nil argument may be reported or ignored, but must not panic -/
+example : c18Accept 0 1 false [] ⟨0, 0, 79, 68, 0, 1, none⟩ = false := by decide
+example : c18Accept 0 1 false [] ⟨0, 0, 79, 68, 0, 0, none⟩ = true := by decide
+example : c18Accept 0 1 false [] ⟨1, 1, 0, 0, 1, 0, none⟩ = true := by decide
+example : c18Accept 0 1 false [] ⟨2, 1, 0, 0, 2, 0, none⟩ = false := by decide
+example : c18Accept 0 1 false [] ⟨1, 0, 79, 68, 1, 0, none⟩ = false := by decide
+
+/-- hypotheses of `C18` and of `stub_failure_violates` are satisfiable -/
+example : ¬ stubFailureReached (fun _ => 15) exGood := by decide
+example : stubFailureReached (fun _ => 15) [.function "", .instr true default] := by decide
+example : stubFailureReached (fun _ => 15) [.function "1 f", .instr true default] := by decide
+example : stubFailureReached (fun _ => 15) [.function "f", .pragma true, .instr true default] := by decide
+/-- a later `Doc` replaces the broken one; a later plain `Pragma` does not -/
+example : ¬ stubFailureReached (fun _ => 15) [.function "f", .doc true, .doc false, .instr true default] := by decide
+example : stubFailureReached (fun _ => 15) [.function "f", .pragma true, .pragma false, .instr true default] := by decide
+example : isGoIdent "f1" = true ∧ isGoIdent "_x" = true ∧ isGoIdent "func" = false ∧ isGoIdent "a b" = false := by decide
 
 /-- compile-time faults of a concrete function: undefined label and a label at the end -/
 example : fnPassFaults (fun _ => 15)
@@ -498,5 +610,245 @@ theorem witness_implicit_only_valid (lim : Nat → Nat) :
   refine ⟨h, ?_⟩
   simp only [observe, main, stdPasses, h]
   decide
+
+/-! ## Declarative reading of the faults that depend on the history
+
+`fault` above is stated on the model state.  The theorems of this section say
+what that means in terms of the history alone (no reference to `step`):
+a request that acts on the active function / data section is a fault exactly
+when no `Function` / `StaticGlobal` call precedes it, and no history whatsoever
+stores two overlapping data in a section. -/
+
+def Op.opensFn : Op → Bool
+  | .function _ | .pressure _ _ _ => true
+  | _ => false
+
+def Op.opensGlob : Op → Bool
+  | .staticGlobal _ => true
+  | _ => false
+
+@[simp] theorem withFn_cur_isSome (c : Ctx) (f) : (c.withFn f).cur.isSome = c.cur.isSome := by
+  unfold Ctx.withFn; cases h : c.cur <;> simp [Ctx.addErr, h]
+@[simp] theorem withFn_glob (c : Ctx) (f) : (c.withFn f).glob = c.glob := by
+  unfold Ctx.withFn; cases h : c.cur <;> simp [Ctx.addErr]
+@[simp] theorem withFn_doneGlobs (c : Ctx) (f) : (c.withFn f).doneGlobs = c.doneGlobs := by
+  unfold Ctx.withFn; cases h : c.cur <;> simp [Ctx.addErr]
+@[simp] theorem withGlob_cur (c : Ctx) (f) : (c.withGlob f).cur = c.cur := by
+  unfold Ctx.withGlob; cases h : c.glob <;> simp [Ctx.addErr]
+@[simp] theorem withGlob_glob_isSome (c : Ctx) (f) : (c.withGlob f).glob.isSome = c.glob.isSome := by
+  unfold Ctx.withGlob; cases h : c.glob <;> simp [Ctx.addErr, h]
+@[simp] theorem withGlob_doneGlobs (c : Ctx) (f) : (c.withGlob f).doneGlobs = c.doneGlobs := by
+  unfold Ctx.withGlob; cases h : c.glob <;> simp [Ctx.addErr]
+@[simp] theorem rootComp_cur (c : Ctx) (p) : (c.rootComp p).cur = c.cur := by
+  unfold Ctx.rootComp; cases h : c.cur <;> simp [Ctx.addErr, Ctx.pushComp, h]
+@[simp] theorem rootComp_glob (c : Ctx) (p) : (c.rootComp p).glob = c.glob := by
+  unfold Ctx.rootComp; cases h : c.cur <;> simp [Ctx.addErr, Ctx.pushComp]
+@[simp] theorem rootComp_doneGlobs (c : Ctx) (p) : (c.rootComp p).doneGlobs = c.doneGlobs := by
+  unfold Ctx.rootComp; cases h : c.cur <;> simp [Ctx.addErr, Ctx.pushComp]
+@[simp] theorem loadStore_cur_isSome (c : Ctx) (s rk d st) : (c.loadStore s rk d st).cur.isSome = c.cur.isSome := by
+  unfold Ctx.loadStore; split <;> (try split) <;> (try split) <;> simp [Ctx.addErr, Ctx.addNode]
+@[simp] theorem loadStore_glob (c : Ctx) (s rk d st) : (c.loadStore s rk d st).glob = c.glob := by
+  unfold Ctx.loadStore; split <;> (try split) <;> (try split) <;> simp [Ctx.addErr, Ctx.addNode]
+@[simp] theorem loadStore_doneGlobs (c : Ctx) (s rk d st) : (c.loadStore s rk d st).doneGlobs = c.doneGlobs := by
+  unfold Ctx.loadStore; split <;> (try split) <;> (try split) <;> simp [Ctx.addErr, Ctx.addNode]
+
+theorem step_cur_isSome (c : Ctx) (op : Op) : (step c op).cur.isSome = (c.cur.isSome || op.opensFn) := by
+  cases op with
+  | signature s => cases s <;> simp [step, Op.opensFn, Ctx.addErr]
+  | instr v i => cases v <;> simp [step, Op.opensFn, Ctx.addErr, Ctx.addNode]
+  | addDatum off sz =>
+    simp only [step, Op.opensFn]
+    cases c.glob with
+    | none => simp [Ctx.addErr]
+    | some g => by_cases h : g.overlapsAny off sz = true <;> simp [h, Ctx.addErr]
+  | constraints cs => by_cases h : constraintsValid cs = true <;> simp [step, h, Ctx.addErr, Op.opensFn]
+  | constraint k => by_cases h : constraintsValid (c.cons ++ [k]) = true <;> simp [step, h, Ctx.addErr, Op.opensFn]
+  | constraintExpr k =>
+    by_cases h : constraintsValid (c.cons ++ [k]) = true <;> by_cases h2 : constraintValid k = true <;>
+      simp [step, h, h2, Ctx.addErr, Op.opensFn]
+  | _ => simp [step, Op.opensFn, Ctx.addNode, Ctx.addErr, Ctx.pushComp, Ctx.newFn]
+
+theorem run_cur_isSome (c : Ctx) (ops : List Op) :
+    (run c ops).cur.isSome = (c.cur.isSome || ops.any Op.opensFn) := by
+  induction ops generalizing c with
+  | nil => simp [run]
+  | cons op ops ih => rw [run_cons, ih, step_cur_isSome]; simp [Bool.or_assoc]
+
+theorem step_glob_isSome (c : Ctx) (op : Op) : (step c op).glob.isSome = (c.glob.isSome || op.opensGlob) := by
+  cases op with
+  | signature s => cases s <;> simp [step, Op.opensGlob, Ctx.addErr]
+  | instr v i => cases v <;> simp [step, Op.opensGlob, Ctx.addErr, Ctx.addNode]
+  | addDatum off sz =>
+    simp only [step, Op.opensGlob]
+    cases hg : c.glob with
+    | none => simp [Ctx.addErr, hg]
+    | some g => by_cases h : g.overlapsAny off sz = true <;> simp [h, Ctx.addErr, hg]
+  | constraints cs => by_cases h : constraintsValid cs = true <;> simp [step, h, Ctx.addErr, Op.opensGlob]
+  | constraint k => by_cases h : constraintsValid (c.cons ++ [k]) = true <;> simp [step, h, Ctx.addErr, Op.opensGlob]
+  | constraintExpr k =>
+    by_cases h : constraintsValid (c.cons ++ [k]) = true <;> by_cases h2 : constraintValid k = true <;>
+      simp [step, h, h2, Ctx.addErr, Op.opensGlob]
+  | _ => simp [step, Op.opensGlob, Ctx.addNode, Ctx.addErr, Ctx.pushComp, Ctx.newFn]
+
+theorem run_glob_isSome (c : Ctx) (ops : List Op) :
+    (run c ops).glob.isSome = (c.glob.isSome || ops.any Op.opensGlob) := by
+  induction ops generalizing c with
+  | nil => simp [run]
+  | cons op ops ih => rw [run_cons, ih, step_glob_isSome]; simp [Bool.or_assoc]
+
+/-- requests that act on the active function and are otherwise well-formed -/
+def Op.needsFn : Op → Bool
+  | .attributes _ | .doc _ | .pragma _ | .label _ | .comment | .rawInstr _ | .allocLocal _
+  | .param _ | .paramIndex _ | .ret _ | .retIndex _ | .signature (some _) | .instr true _ => true
+  | _ => false
+
+/-- requests that act on the active data section -/
+def Op.needsGlob : Op → Bool
+  | .dataAttributes _ | .appendDatum _ | .addDatum _ _ => true
+  | _ => false
+
+/-- **outside_function_iff** ("instruction outside a function").  For every history
+`pre` and every request that acts on the active function: the request is a fault
+exactly when no `Function` call precedes it, and the message is "no active function". -/
+theorem outside_function_iff (pre : List Op) (op : Op) (h : op.needsFn = true) :
+    fault (run Ctx.init pre) op = (if pre.any Op.opensFn then none else some .noFunc) := by
+  have hc := run_cur_isSome Ctx.init pre
+  simp only [Ctx.init, Option.isSome_none, Bool.false_or] at hc
+  have hn : noFn (run Ctx.init pre) = (if pre.any Op.opensFn then none else some .noFunc) := by
+    unfold noFn
+    cases hh : pre.any Op.opensFn <;> cases hcur : (run Ctx.init pre).cur <;> simp_all [Ctx.init]
+  cases op with
+  | signature s => cases s <;> simp_all [fault, Op.needsFn]
+  | instr v i => cases v <;> simp_all [fault, Op.needsFn]
+  | _ => simp_all [fault, Op.needsFn]
+
+/-- … and for the data section: without a preceding `StaticGlobal` every datum /
+attribute request is a fault ("no active global"). -/
+theorem outside_global_fault (pre : List Op) (op : Op) (h : op.needsGlob = true)
+    (hpre : pre.any Op.opensGlob = false) : fault (run Ctx.init pre) op = some .noGlobal := by
+  have hc : (run Ctx.init pre).glob.isSome = false := by
+    rw [run_glob_isSome, hpre]; rfl
+  have hg : (run Ctx.init pre).glob = none := by
+    cases hh : (run Ctx.init pre).glob with
+    | none => rfl
+    | some g => rw [hh] at hc; simp at hc
+  cases op <;> simp_all [fault, Op.needsGlob, noGl]
+
+/-! ### No history stores overlapping data -/
+
+/-- `later` does not overlap `earlier` (in the sense of `Datum.Overlaps`, the new datum being the receiver). -/
+def disjointFrom (earlier later : Nat × Nat) : Prop :=
+  overlaps later.1 (later.1 + later.2) earlier.1 (earlier.1 + earlier.2) = false
+
+/-- A data section is well formed: its data are pairwise non-overlapping and all lie below its size. -/
+def Glob.wf (g : Glob) : Prop :=
+  g.data.Pairwise disjointFrom ∧ ∀ d ∈ g.data, d.1 + d.2 ≤ g.size
+
+theorem Glob.wf_empty (n : String) : ({ name := n } : Glob).wf := by
+  simp [Glob.wf]
+
+theorem Glob.add_wf (g : Glob) (off sz : Nat) (hw : g.wf) (hno : g.overlapsAny off sz = false) :
+    (g.add off sz).wf := by
+  obtain ⟨hp, hs⟩ := hw
+  refine ⟨?_, ?_⟩
+  · simp only [Glob.add, List.pairwise_append, List.pairwise_cons, List.not_mem_nil, false_imp_iff,
+      implies_true, List.Pairwise.nil, and_self, List.mem_singleton, true_and]
+    refine ⟨hp, ?_⟩
+    intro a ha b hb
+    subst hb
+    simp only [Glob.overlapsAny, List.any_eq_false] at hno
+    have := hno a ha
+    simpa [disjointFrom] using this
+  · intro d hd
+    simp only [Glob.add, List.mem_append, List.mem_singleton] at hd ⊢
+    rcases hd with hd | hd
+    · have := hs d hd; split <;> omega
+    · subst hd; simp only; split <;> omega
+
+theorem Glob.append_no_overlap (g : Glob) (sz : Nat) (hw : g.wf) : g.overlapsAny g.size sz = false := by
+  simp only [Glob.overlapsAny, List.any_eq_false]
+  intro d hd
+  have := hw.2 d hd
+  simp [overlaps, this]
+
+/-- the invariant: every data section of the context is well formed -/
+def Ctx.dataWf (c : Ctx) : Prop := (∀ g ∈ c.doneGlobs, g.wf) ∧ (∀ g, c.glob = some g → g.wf)
+
+theorem step_dataWf (c : Ctx) (op : Op) (h : c.dataWf) : (step c op).dataWf := by
+  obtain ⟨hd, hg⟩ := h
+  cases op with
+  | signature s => cases s <;> simpa [step, Ctx.dataWf, Ctx.addErr] using ⟨hd, hg⟩
+  | instr v i => cases v <;> simpa [step, Ctx.dataWf, Ctx.addErr, Ctx.addNode] using ⟨hd, hg⟩
+  | staticGlobal n =>
+    refine ⟨?_, ?_⟩
+    · intro g hm
+      simp only [step, List.mem_append] at hm
+      rcases hm with hm | hm
+      · exact hd g hm
+      · cases hc : c.glob with
+        | none => simp [hc] at hm
+        | some g' => simp [hc] at hm; exact hm ▸ hg g' hc
+    · intro g hm
+      simp only [step, Option.some.injEq] at hm
+      subst hm; exact Glob.wf_empty n
+  | dataAttributes a =>
+    refine ⟨by simpa [step] using hd, ?_⟩
+    intro g hm
+    simp only [step, Ctx.withGlob] at hm
+    cases hc : c.glob with
+    | none => simp [hc, Ctx.addErr] at hm
+    | some g' =>
+      simp [hc] at hm; subst hm
+      have := hg g' hc
+      exact ⟨this.1, this.2⟩
+  | addDatum off sz =>
+    simp only [step]
+    cases hc : c.glob with
+    | none => simpa [Ctx.dataWf, Ctx.addErr, hc] using hd
+    | some g' =>
+      by_cases ho : g'.overlapsAny off sz = true
+      · simpa [ho, Ctx.dataWf, Ctx.addErr, hc] using ⟨hd, hg g' hc⟩
+      · simp only [ho, Bool.false_eq_true, if_false]
+        refine ⟨hd, ?_⟩
+        intro g hm
+        simp only [Option.some.injEq] at hm
+        subst hm
+        exact Glob.add_wf g' off sz (hg g' hc) (by simpa using ho)
+  | appendDatum sz =>
+    refine ⟨by simpa [step] using hd, ?_⟩
+    intro g hm
+    simp only [step, Ctx.withGlob] at hm
+    cases hc : c.glob with
+    | none => simp [hc, Ctx.addErr] at hm
+    | some g' =>
+      simp [hc] at hm; subst hm
+      exact Glob.add_wf g' g'.size sz (hg g' hc) (Glob.append_no_overlap g' sz (hg g' hc))
+  | constraints cs => by_cases h : constraintsValid cs = true <;> simpa [step, h, Ctx.addErr, Ctx.dataWf] using ⟨hd, hg⟩
+  | constraint k =>
+    by_cases h : constraintsValid (c.cons ++ [k]) = true <;> simpa [step, h, Ctx.addErr, Ctx.dataWf] using ⟨hd, hg⟩
+  | constraintExpr k =>
+    by_cases h : constraintsValid (c.cons ++ [k]) = true <;> by_cases h2 : constraintValid k = true <;>
+      simpa [step, h, h2, Ctx.addErr, Ctx.dataWf] using ⟨hd, hg⟩
+  | _ => simpa [step, Ctx.dataWf, Ctx.addNode, Ctx.addErr, Ctx.pushComp, Ctx.newFn] using ⟨hd, hg⟩
+
+/-- **data_disjoint.** Whatever the history — valid or not, in any interleaving
+with functions and other sections — no data section of the built file ever holds
+two overlapping data, and every datum lies within the section's size: an
+overlapping datum is never stored. -/
+theorem data_disjoint (ops : List Op) : ∀ g ∈ (run Ctx.init ops).globs, g.wf := by
+  have hinv : ∀ (c : Ctx), c.dataWf → (run c ops).dataWf := by
+    induction ops with
+    | nil => intro c h; exact h
+    | cons op ops ih => intro c h; rw [run_cons]; exact ih _ (step_dataWf c op h)
+  have h := hinv Ctx.init ⟨by simp [Ctx.init], by simp [Ctx.init]⟩
+  intro g hm
+  simp only [Ctx.globs, List.mem_append, Option.mem_toList] at hm
+  rcases hm with hm | hm
+  · exact h.1 g hm
+  · exact h.2 g hm
+
+/-- non-vacuity: a section with three data, one request refused in between -/
+example : (run Ctx.init [.staticGlobal "d", .addDatum 0 8, .addDatum 4 8, .appendDatum 4, .addDatum 16 2]).globs.map
+    (·.data) = [[(0, 8), (8, 4), (16, 2)]] := by decide
 
 end Avo.Ctx
